@@ -146,6 +146,13 @@ func (r *Run) Inconclusive(format string, a ...any) {
 	fmt.Fprintf(os.Stderr, "[%s] INCONCLUSIVE: %s\n", r.Prop, msg)
 }
 
+// InconclusiveList returns the reasons recorded so far.
+func (r *Run) InconclusiveList() []string {
+	r.mu.Lock()
+	defer r.mu.Unlock()
+	return append([]string{}, r.inconclusive...)
+}
+
 // Violate records a disagreement. It is matched against the known findings at Finish.
 func (r *Run) Violate(v Violation) {
 	r.mu.Lock()
